@@ -55,6 +55,8 @@ package graphql
 //@ func completeLeafValue
 //@   props C04 C09
 //@   requires returnType != nil
+//@   opt invoke.Serialize=pure
+//@   assigns nothing
 //@   ensures result == nil || !isNullish_0(result)
 
 // ---- field errors (C04, C18) ----------------------------------------------------
@@ -104,7 +106,35 @@ package graphql
 //@   trusted
 //@   assigns nothing
 
+// (verified, were trusted) value completion (C04): a failure while completing a value in a NULLABLE position is
+// recorded as a field error and the position becomes null (the function returns; nothing else changes); in a
+// non-null position the failure propagates to the parent. The dispatch completes the value as exactly its
+// declared type: a non-null wrapper completes the wrapped type and never yields null (it fails instead), null
+// stays null, lists / leaves / abstract types / objects go to their own completion with the same field, path and value.
 //@ func completePlannedValueCatchingError
+//@   props C04 C20 C18
+//@   nosafety
+//@   requires eCtx != nil && fp != nil
+//@   assigns class:executionContext.Errors, class:executionContext.Context, class:FormattedError, class:M|*graphql.Object|*graphql.selectionPlan, class:graphql.selectionPlan, class:graphql.fieldPlan, class:M|string|int, class:M|string|bool, class:E|*graphql.fieldPlan, class:E|*ast.Field, class:M|string|interface, class:E|interface, class:E|string, class:graphql.fragmentGate, class:graphql.fragmentTrace, class:E|graphql.collectStep, class:F|[]graphql.collectStep, class:M|string|*graphql.fragmentTrace, class:E|graphql.fragmentSpreadEdge, class:M|string|*graphql.fragmentGate, class:E|func, class:graphql.Plan.expanding, class:M|*ast.Field|bool, class:M|*graphql.fieldPlan|bool, class:M|*graphql.fragmentTrace|bool
+//@   panics typeis(returnType, "*graphql.NonNull")
+//@   at call completePlannedValue#1: assert arg0 == eCtx && arg1 == old(returnType) && arg2 == fp && arg4 == path && arg5 == old(result)
+//@   at call completePlannedValue#2: assert arg0 == eCtx && arg1 == old(returnType) && arg2 == fp && arg4 == path && arg5 == old(result)
+//@ func completePlannedValue
+//@   props C04 C20 C18 C01
+//@   nosafety
+//@   opt maypanic=true
+//@   requires eCtx != nil && fp != nil
+//@   assigns class:executionContext.Errors, class:executionContext.Context, class:FormattedError, class:M|*graphql.Object|*graphql.selectionPlan, class:graphql.selectionPlan, class:graphql.fieldPlan, class:M|string|int, class:M|string|bool, class:E|*graphql.fieldPlan, class:E|*ast.Field, class:M|string|interface, class:E|interface, class:E|string, class:graphql.fragmentGate, class:graphql.fragmentTrace, class:E|graphql.collectStep, class:F|[]graphql.collectStep, class:M|string|*graphql.fragmentTrace, class:E|graphql.fragmentSpreadEdge, class:M|string|*graphql.fragmentGate, class:E|func, class:graphql.Plan.expanding, class:M|*ast.Field|bool, class:M|*graphql.fieldPlan|bool, class:M|*graphql.fragmentTrace|bool
+//@   ensures typeis(returnType, "*graphql.NonNull") ==> !isnil(result0)
+//@   at call completePlannedValue: assert arg0 == eCtx && arg1 == as(old(returnType), "*graphql.NonNull").OfType && arg2 == fp && arg4 == path && arg5 == old(result)
+//@   at call completePlannedListValue: assert arg0 == eCtx && arg1 == as(old(returnType), "*graphql.List") && arg2 == fp && arg4 == path && arg5 == old(result) && !isNullish_0(old(result))
+//@   at call completeLeafValue: assert arg1 == old(result) && !isNullish_0(old(result)) && (typeis(old(returnType), "*graphql.Scalar") || typeis(old(returnType), "*graphql.Enum"))
+//@   at call completePlannedAbstractValue: assert arg0 == eCtx && arg2 == fp && arg4 == path && arg5 == old(result) && !isNullish_0(old(result))
+//@   at call completePlannedObjectValue: assert arg0 == eCtx && arg1 == as(old(returnType), "*graphql.Object") && arg2 == fp && arg4 == path && arg5 == old(result) && !isNullish_0(old(result))
+//@   ensures calls("completePlannedListValue") == 1 && typeis(returnType, "*graphql.List") ==> result0 == lastresult("completePlannedListValue")
+//@   ensures calls("completeLeafValue") == 1 && (typeis(returnType, "*graphql.Scalar") || typeis(returnType, "*graphql.Enum")) ==> result0 == lastresult("completeLeafValue")
+//@   ensures calls("completePlannedObjectValue") == 1 && typeis(returnType, "*graphql.Object") ==> result0 == lastresult("completePlannedObjectValue")
+//@ func completePlannedThunkValueCatchingError
 //@   trusted
 //@   assigns class:executionContext.Errors, class:executionContext.Context, class:FormattedError, class:M|*graphql.Object|*graphql.selectionPlan, class:graphql.selectionPlan, class:graphql.fieldPlan, class:M|string|int, class:M|string|bool, class:E|*graphql.fieldPlan, class:E|*ast.Field, class:M|string|interface, class:E|interface, class:E|string, class:graphql.fragmentGate, class:graphql.fragmentTrace, class:E|graphql.collectStep, class:F|[]graphql.collectStep, class:M|string|*graphql.fragmentTrace, class:E|graphql.fragmentSpreadEdge, class:M|string|*graphql.fragmentGate, class:E|func, class:graphql.Plan.expanding, class:M|*ast.Field|bool, class:M|*graphql.fieldPlan|bool, class:M|*graphql.fragmentTrace|bool
 
@@ -225,7 +255,7 @@ package graphql
 //@   assigns class:executionContext.Errors, class:executionContext.Context, class:FormattedError, class:M|*graphql.Object|*graphql.selectionPlan, class:graphql.selectionPlan, class:graphql.fieldPlan, class:M|string|int, class:M|string|bool, class:E|*graphql.fieldPlan, class:E|*ast.Field, class:M|string|interface, class:E|interface, class:E|string, class:graphql.fragmentGate, class:graphql.fragmentTrace, class:E|graphql.collectStep, class:F|[]graphql.collectStep, class:M|string|*graphql.fragmentTrace, class:E|graphql.fragmentSpreadEdge, class:M|string|*graphql.fragmentGate, class:E|func, class:graphql.Plan.expanding, class:M|*ast.Field|bool, class:M|*graphql.fieldPlan|bool, class:M|*graphql.fragmentTrace|bool
 //@   props C20 C18 C04
 //@   nosafety
-//@   requires eCtx != nil && returnType != nil
+//@   requires eCtx != nil
 //@   at[C20,C18] call completePlannedValueCatchingError: assert arg4 != nil && arg4.Prev == path && typeis(arg4.Key, "int") && intval(arg4.Key) == i
 //@   at[C20] call completePlannedValueCatchingError: assert arg0 == eCtx && arg1 == returnType.OfType && arg2 == fp
 //@   loop 1 invariant fresh(completedResults) && len(completedResults) == i && i >= 0
@@ -250,7 +280,7 @@ package graphql
 //@   assigns class:executionContext.Errors, class:executionContext.Context, class:FormattedError, class:M|*graphql.Object|*graphql.selectionPlan, class:graphql.selectionPlan, class:graphql.fieldPlan, class:M|string|int, class:M|string|bool, class:E|*graphql.fieldPlan, class:E|*ast.Field, class:M|string|interface, class:E|interface, class:E|string, class:graphql.fragmentGate, class:graphql.fragmentTrace, class:E|graphql.collectStep, class:F|[]graphql.collectStep, class:M|string|*graphql.fragmentTrace, class:E|graphql.fragmentSpreadEdge, class:M|string|*graphql.fragmentGate, class:E|func, class:graphql.Plan.expanding, class:M|*ast.Field|bool, class:M|*graphql.fieldPlan|bool, class:M|*graphql.fragmentTrace|bool
 //@   props C20 C04 C18
 //@   nosafety
-//@   requires eCtx != nil && returnType != nil
+//@   requires eCtx != nil
 //@   at[C20] call IsTypeOf: assert arg0.Value == result && arg0.Context == eCtx.Context
 //@   at[C20,C18] call executePlannedSelection#1: assert arg0 == eCtx && arg1 == fp.sub && arg2 == result && arg3 == returnType && arg4 == path
 // a field inside a fragment cycle is planned on demand, for the type of the value at hand
